@@ -103,6 +103,13 @@ static void case_arith(ByteSource& in, CaseInfo& ci) {
     if (in.flag()) { std::swap(a.f->_mp_d, b.f->_mp_d); std::swap(a.f->_mp_size, b.f->_mp_size); std::swap(a.f->_mp_exp, b.f->_mp_exp); std::swap(a.f->_mp_prec, b.f->_mp_prec); if (f == 0) {} }
     a.v = read_mpf(a.f); b.v = read_mpf(b.f); ci.label("x+1|000_minus_x|fff"); }
   uint64_t u = in.pick({3, 1, 1, 1}) == 0 ? in.u64() : in.flag() ? in.range(0, 100) : PALETTE[in.u8() & 7];
+  if (f >= 5 && f <= 7 && u >= 1 && in.chance(90)) {   // the operand nearly (or exactly) cancels against the unsigned long: a = +-u, +-(u + tiny), +-(u - tiny), possibly stored with low zero limbs
+    size_t n = (size_t)in.range(1, (size_t)a.f->_mp_prec + 1); unsigned k = n == 1 ? 0 : in.pick({2, 3, 3}); for (size_t i = 0; i < n; i++) a.f->_mp_d[i] = 0; a.f->_mp_d[n - 1] = u;
+    if (k == 1) { size_t j = (size_t)in.range(0, n - 2); a.f->_mp_d[j] = in.flag() ? in.u64() | 1 : 1ull << in.range(0, 63); if (in.flag()) for (size_t i = 0; i < j; i++) a.f->_mp_d[i] = in.u64(); }   // u + tiny
+    else if (k == 2) { a.f->_mp_d[n - 1] = u - 1; for (size_t i = 0; i + 1 < n; i++) a.f->_mp_d[i] = ~0ull; if (in.flag()) a.f->_mp_d[0] = in.u64(); }   // u - tiny = (u-1).fff...
+    size_t m = n; while (m && a.f->_mp_d[m - 1] == 0) m--; bool negv = (f == 5); if (in.chance(30)) negv = !negv;
+    a.f->_mp_size = negv ? -(int)m : (int)m; a.f->_mp_exp = m ? 1 - (long)(n - m) : 0; a.v = read_mpf(a.f); ci.label("ui_operand_nearly_cancels");
+  }
   Dy U{Int::from_u64(u), 0}; Ex X; bool opfit = true; ci.nontrivial = !a.v.m.is_zero();
   ci.d("%s p=%llu ", names[f], (unsigned long long)p); DESC(ci, "a=" + dshow(a.v) + " b=" + dshow(b.v) + " ui=" + std::to_string(u));
   // aliasing of the destination with an operand (precision then is the operand's)
@@ -250,5 +257,5 @@ static void check(ByteSource& in, CaseInfo& ci) { if (in.chance(12)) { case_init
 namespace eng {
 PropDef g_prop = {"C13",
   "Cases: one call of mpf_add/sub/mul/div/sqrt and their _ui forms, mpf_set_q/set_z/set_d, mpf_set_str, the default-precision family (mpf_set_default_prec then mpf_init_set/_ui/_si/_d/_str, mpf_inits: precision >= default, same value rules), mpf_floor/ceil/trunc/neg/abs/mul_2exp/div_2exp, mpf_get_str. Destination precision 1..2000 bits chosen independently of the operand precisions (shorter and longer), reached directly, through mpf_set_prec after another value, or through mpf_set_prec_raw (restored afterwards); the destination may alias an operand; operands are built limb by limb (up to prec+1 limbs, low zero limbs, all ones, single bit), with exponent relations no overlap / partial / full / far apart and nearly cancelling pairs for add/sub. Oracle: an mpf value is the exact dyadic rational mantissa*2^(64*(exp-size)) in refint; with p = mpf_get_prec(rop): |result-exact| < 2^(2-p)*|exact| (sqrt by squaring both bounds), result == exact whenever the operands and the exact value each fit in p bits, exact functions compared exactly, mpf_get_str: at most n_digits digits, no trailing zeros, right alphabet, value within one unit of the last requested digit (n_digits never exceeds what the precision carries); the format rules (|size| <= prec+1, top limb non-zero, zero has exponent 0) after every call. Non-trivial: non-zero first operand. Distinct = hash of all decoded choices.",
-  check, nullptr, {"exact_clause", "bound_clause", "result_truncated", "near_cancellation", "x+1|000_minus_x|fff", "exponents_far_apart", "low_zero_limbs", "dest:set_prec", "dest:set_prec_raw", "dest_aliases_operand", "get_str:fewer_digits_than_requested"}, fixed_case};
+  check, nullptr, {"exact_clause", "bound_clause", "result_truncated", "near_cancellation", "ui_operand_nearly_cancels", "x+1|000_minus_x|fff", "exponents_far_apart", "low_zero_limbs", "dest:set_prec", "dest:set_prec_raw", "dest_aliases_operand", "get_str:fewer_digits_than_requested"}, fixed_case};
 }
